@@ -259,6 +259,85 @@ def sround(x):
     return c.const(ks[i])
 
 
+def _int_fork(x, kind):
+    """integer part of symbolic x by forking over the engine's bounded integer range.
+    kind: 'floor' (k <= x < k+1), 'ceil' (k-1 < x <= k), 'trunc' (toward zero)"""
+    c = ctx()
+    if not isinstance(x, SReal):
+        import math
+
+        return {"floor": math.floor, "ceil": math.ceil, "trunc": math.trunc}[kind](x)
+    if x.is_const():
+        import math
+
+        v = x.const_value()
+        return {"floor": math.floor, "ceil": math.ceil, "trunc": math.trunc}[kind](v)
+    lo, hi = c.engine.round_range
+    ks = list(range(lo - 1, hi + 2))
+    alts = []
+    for k in ks:
+        if kind == "floor":
+            alts.append(f_and(_F(x >= k), _F(x < k + 1)))
+        elif kind == "ceil":
+            alts.append(f_and(_F(x > k - 1), _F(x <= k)))
+        else:
+            if k > 0:
+                alts.append(f_and(_F(x >= k), _F(x < k + 1)))
+            elif k < 0:
+                alts.append(f_and(_F(x > k - 1), _F(x <= k)))
+            else:
+                alts.append(f_and(_F(x > -1), _F(x < 1)))
+    return ks[c.decide(alts)]
+
+
+def floor(a, **k):
+    if not _any_sym(a):
+        return _np.floor(a, **k)
+    return _map1(lambda x: ctx().const(_int_fork(x, "floor")), a)
+
+
+def ceil(a, **k):
+    if not _any_sym(a):
+        return _np.ceil(a, **k)
+    return _map1(lambda x: ctx().const(_int_fork(x, "ceil")), a)
+
+
+def trunc(a, **k):
+    if not _any_sym(a):
+        return _np.trunc(a, **k)
+    return _map1(lambda x: ctx().const(_int_fork(x, "trunc")), a)
+
+
+def mod(a, b, **k):
+    """numpy.mod / remainder: result has the sign of the divisor: a - floor(a/b)*b"""
+    if not _any_sym(a, b):
+        return _np.mod(a, b, **k)
+    return _map2(lambda x, y: x - ctx().const(_int_fork(SReal.lift(x) / y, "floor")) * y, a, b)
+
+
+def fmod(a, b, **k):
+    """numpy.fmod: result has the sign of the dividend: a - trunc(a/b)*b"""
+    if not _any_sym(a, b):
+        return _np.fmod(a, b, **k)
+    return _map2(lambda x, y: x - ctx().const(_int_fork(SReal.lift(x) / y, "trunc")) * y, a, b)
+
+
+def sign(a, **k):
+    if not _any_sym(a):
+        return _np.sign(a, **k)
+
+    def sg(x):
+        if not isinstance(x, SReal):
+            return (x > 0) - (x < 0)
+        if _tobool(x > 0):
+            return ctx().const(1)
+        if _tobool(x < 0):
+            return ctx().const(-1)
+        return ctx().const(0)
+
+    return _map1(sg, a)
+
+
 def _F(b):
     if isinstance(b, Formula):
         return b
@@ -727,6 +806,14 @@ _OVERRIDES = {
     "round": round_,
     "around": round_,
     "rint": round_,
+    "floor": floor,
+    "ceil": ceil,
+    "trunc": trunc,
+    "fix": trunc,
+    "mod": mod,
+    "remainder": mod,
+    "fmod": fmod,
+    "sign": sign,
     "argmax": argmax,
     "argmin": argmin,
     "max": amax,
